@@ -121,7 +121,25 @@ impl<'e> RandFiller<'e> {
             self.features.insert("non_ascii".into());
             return (*self.e.pick(&["/* é */", "/* ß */", "/* 日本 */", "/* 😀 */"][..])).to_string();
         }
-        (*self.e.pick(BLOCK_COMMENTS)).to_string()
+        if self.e.chance(1, 2) {
+            return (*self.e.pick(BLOCK_COMMENTS)).to_string();
+        }
+        // constructed: runs of stars next to the delimiters, slashes, code-like text
+        let mut body = String::new();
+        body.push_str(&"*".repeat(self.e.below(4)));
+        let n = self.e.below(5);
+        for _ in 0..n {
+            body.push_str(*self.e.pick(&[" ", "x", "nop", "*", "**", "/ ", " /", "{", "}", "\"", "//", "#", "$1", ";", ":", "a*b", "c/d", " * "][..]));
+        }
+        body.push_str(&"*".repeat(self.e.below(4)));
+        // nothing inside may open or close a comment
+        while body.contains("*/") || body.contains("/*") {
+            body = body.replace("*/", "* /").replace("/*", "/ *");
+        }
+        if body.ends_with('/') {
+            body.push(' ');
+        }
+        format!("/*{}*/", body)
     }
 
     fn line_comment_raw(&mut self) -> String {
@@ -208,7 +226,8 @@ impl<'e> Filler for RandFiller<'e> {
 
     fn fill(&mut self, kind: SlotKind, id: SlotId, canon: &str, _depth: usize) -> String {
         self.cur_slot = id.to_string();
-        self.comments_allowed = !self.cfg.no_comment_slots.iter().any(|s| s == id)
+        self.comments_allowed = id != "interp-open"
+            && !self.cfg.no_comment_slots.iter().any(|s| s == id)
             && (self.cfg.only_comment_slots.is_empty() || self.cfg.only_comment_slots.iter().any(|s| s == id));
         let vary = self.e.below(100) < self.cfg.vary;
         if !vary {
